@@ -189,14 +189,15 @@ class GlobalContext:
             path = self.rel_import_path
             if path.endswith("/__init__"):
                 path = os.path.dirname(path)
-            ctx_name = self.name
             for _ in range(import_level - 1):
                 path = os.path.dirname(path)
-                idx = ctx_name.rfind(".")
-                if path.find("/") < 0 or idx < 0:
+                if path.find("/") < 0:
                     raise ImportError("attempted relative import above parent package")
-                ctx_name = ctx_name[0:idx]
-            ctx_name += f".{module_name}"
+            #
+            # the context is named after the package directory, not after the importer: a module of
+            # the package that imports a sibling gets the same context as the package's __init__
+            #
+            ctx_name = f"{path.replace('/', '.')}.{module_name}"
             module_info = [ctx_name, f"{path}/{module_path}.py", path]
             path += f"/{module_path}"
             file_paths.append([ctx_name, f"{path}/__init__.py", path])
